@@ -127,20 +127,22 @@ def headFrag (cap : Nat) : List Portion → Bool
   | [] => false
   | (_, items) :: _ => items.length == cap - 1
 
-/-- returns the new portions and the page numbers handed to `encode_head` (the pages written) -/
-def pushEnc (cap : Nat) : List Nat → List Nat → List Portion → List Nat → Option (List Portion × List Nat)
-  | [], newPages, ps, written =>
+/-- returns the new portions and the page numbers handed to `encode_head` (the pages written).
+`unt` is `head_untouched` (repair F18): the head was merely uncovered by pops, it is what the previous state has
+on disk under that page number, and the encode that precedes the first new page is skipped for it. -/
+def pushEnc (cap : Nat) : List Nat → List Nat → List Portion → List Nat → Bool → Option (List Portion × List Nat)
+  | [], newPages, ps, written, _ =>
     if newPages.isEmpty then some (ps, written ++ headPn ps) else none
-  | pn :: rest, newPages, ps, written =>
+  | pn :: rest, newPages, ps, written, unt =>
     if headFull cap ps || (headFrag cap ps && !newPages.isEmpty && rest.isEmpty) then
       match newPages with
       | [] => none
       | np :: nps =>
         -- `self.push(pn)` into the fresh, empty head asserts `0 < MAX`
-        if 0 < cap then pushEnc cap rest nps ((np, [pn]) :: ps) (written ++ headPn ps) else none
+        if 0 < cap then pushEnc cap rest nps ((np, [pn]) :: ps) (if unt then written else written ++ headPn ps) false else none
     else
       match ps with
-      | (h, items) :: r => if items.length < cap then pushEnc cap rest newPages ((h, pn :: items) :: r) written else none
+      | (h, items) :: r => if items.length < cap then pushEnc cap rest newPages ((h, pn :: items) :: r) written unt else none
       | [] => none
 
 /-! ### `FreeList::commit`, `SyncAllocator::allocate`, `SyncFinisher::finish` -/
@@ -172,7 +174,7 @@ def commit (cap : Nat) (s : State) (freed : List Nat) : Option Committed :=
       match paLoop cap (commitFuel s.portions toPush) st0 with
       | none => none
       | some st =>
-        match pushEnc cap st.toPush st.newPages st.ps [] with
+        match pushEnc cap st.toPush st.newPages st.ps [] (st.nfp && !st.ps.isEmpty) with
         | none => none
         | some (ps', written) =>
           some { state := { portions := ps', released := [], pop := false, bump := st.bump },
